@@ -1,3 +1,168 @@
+// maploops: the real map-ranging functions on generated inputs, next to ONE enumeration of the ranged map (this
+// program's own range = a fresh random order) and the oracle values the Coq transcription needs.
 package main
 
-func maploops(seed uint64, n int, out string) {}
+import (
+	"bytes"
+	"sort"
+	"strings"
+
+	authtypes "github.com/cosmos/cosmos-sdk/x/auth/types"
+	ethabi "github.com/ethereum/go-ethereum/accounts/abi"
+	"github.com/ethereum/go-ethereum/common"
+
+	adgov "github.com/teleport-network/teleport/adapter/gov"
+	adstaking "github.com/teleport-network/teleport/adapter/staking"
+	"github.com/teleport-network/teleport/app"
+	govcontract "github.com/teleport-network/teleport/syscontracts/gov"
+	stakingcontract "github.com/teleport-network/teleport/syscontracts/staking"
+	bsctypes "github.com/teleport-network/teleport/x/xibc/clients/light-clients/bsc/types"
+
+	"verifharness/hlib"
+)
+
+type MLCase struct {
+	Kind string `json:"kind"` // validators | macc | handlers
+	// validators
+	Entries    []string `json:"entries,omitempty"` // hex; an enumeration of the map's keys
+	Number     uint64   `json:"number,omitempty"`
+	Validator  string   `json:"validator,omitempty"`
+	RealSorted []string `json:"real_sorted,omitempty"`
+	RealInturn int      `json:"real_inturn"` // 0 false 1 true 2 panic
+	// macc
+	Macc        [][3]string `json:"macc,omitempty"` // (module name, derived address, "1" if allowed to receive)
+	RealMod     [][2]string `json:"real_mod,omitempty"`
+	RealBlocked [][2]string `json:"real_blocked,omitempty"`
+	RealCopy    []string    `json:"real_copy,omitempty"`
+	// handlers
+	Adapter      string      `json:"adapter,omitempty"`
+	Events       [][2]string `json:"events,omitempty"` // (event name, event ID hex) in range order
+	Known        []string    `json:"known,omitempty"`
+	RealIDs      []string    `json:"real_ids,omitempty"`
+	RealPanicked bool        `json:"real_panicked"`
+}
+
+func boolStr(b bool) string {
+	if b {
+		return "1"
+	}
+	return "0"
+}
+
+func dumpBoolMap(m map[string]bool) [][2]string {
+	var out [][2]string
+	for k, v := range m {
+		out = append(out, [2]string{k, boolStr(v)})
+	}
+	sort.Slice(out, func(i, j int) bool { return out[i][0] < out[j][0] })
+	return out
+}
+
+func maploops(seed uint64, n int, out string) {
+	o := hlib.NewOut(out)
+	defer o.Close()
+	root := hlib.NewRand(seed)
+	// ---- BSC snapshot: validators() and inturn() -------------------------------------------------------
+	for i := 0; i < n; i++ {
+		r := root.Fork(uint64(i))
+		k := r.Intn(9)
+		if r.Chance(1, 10) {
+			k = 10 + r.Intn(30) // more than one map bucket
+		}
+		var vals []common.Address
+		for j := 0; j < k; j++ {
+			var a common.Address
+			switch r.Intn(4) {
+			case 0: // shared prefixes: the byte-wise comparison has to look deep
+				copy(a[:], bytes.Repeat([]byte{0xab}, 20))
+				a[19] = byte(r.Intn(4))
+				a[r.Intn(20)] = byte(r.Intn(3))
+			case 1:
+				a[0] = byte(r.Intn(256)) // bytes >= 0x80: unsigned comparison
+			default:
+				copy(a[:], r.Bytes(20))
+			}
+			vals = append(vals, a)
+			if r.Chance(1, 6) {
+				vals = append(vals, a) // duplicate in the slice, one entry in the map
+			}
+		}
+		set := map[common.Address]struct{}{}
+		for _, v := range vals {
+			set[v] = struct{}{}
+		}
+		c := MLCase{Kind: "validators", Number: r.U64() >> uint(r.Intn(64))}
+		if r.Chance(1, 20) {
+			c.Number = ^uint64(0) // Number + 1 wraps
+		}
+		for v := range set {
+			c.Entries = append(c.Entries, hlib.Hex(v[:]))
+		}
+		probe := common.Address{}
+		if len(vals) > 0 && !r.Chance(1, 5) {
+			probe = vals[r.Intn(len(vals))]
+		}
+		c.Validator = hlib.Hex(probe[:])
+		for _, v := range bsctypes.VerifSnapshotValidators(vals) {
+			c.RealSorted = append(c.RealSorted, hlib.Hex(v[:]))
+		}
+		var res bool
+		if p, _ := hlib.Catch(func() { res = bsctypes.VerifSnapshotInturn(vals, c.Number, probe) }); p {
+			c.RealInturn = 2
+		} else if res {
+			c.RealInturn = 1
+		}
+		o.Emit(c)
+	}
+	// ---- app.go: module account address maps (several calls = several iteration orders) ----------------------
+	a := newApp()
+	for i := 0; i < 8; i++ {
+		c := MLCase{Kind: "macc"}
+		perms := app.GetMaccPerms()
+		blocked := a.BlockedAddrs()
+		for name := range perms {
+			addr := authtypes.NewModuleAddress(name).String()
+			// allowedReceivingModAcc is unexported: its value for `name` is read back from the real BlockedAddrs result
+			// only as an ORACLE for the model's tv (blocked = !allowed); the comparison of interest is the key set and
+			// that every enumeration gives the same map
+			c.Macc = append(c.Macc, [3]string{name, addr, boolStr(!blocked[addr])})
+			c.RealCopy = append(c.RealCopy, name)
+		}
+		sort.Strings(c.RealCopy)
+		c.RealMod = dumpBoolMap(a.ModuleAccountAddrs())
+		c.RealBlocked = dumpBoolMap(blocked)
+		o.Emit(c)
+	}
+	// ---- adapters: handler tables ---------------------------------------------------------------------------
+	for i := 0; i < 4; i++ {
+		for _, ad := range []string{"staking", "gov"} {
+			c := MLCase{Kind: "handlers", Adapter: ad}
+			var abiJSON string
+			if ad == "staking" {
+				abiJSON = stakingcontract.StakingMetaData.ABI
+				c.Known = []string{"Delegated", "Undelegated", "Redelegated", "Withdrew"}
+			} else {
+				abiJSON = govcontract.GovMetaData.ABI
+				c.Known = []string{"Voted", "VotedWeighted"}
+			}
+			parsed, err := ethabi.JSON(strings.NewReader(abiJSON))
+			must(err)
+			for name, ev := range parsed.Events {
+				c.Events = append(c.Events, [2]string{name, hlib.Hex(ev.ID[:])})
+			}
+			var ids []common.Hash
+			c.RealPanicked, _ = hlib.Catch(func() {
+				if ad == "staking" {
+					ids = adstaking.NewHookAdapter(&a.AccountKeeper, &a.StakingKeeper, a.EvmKeeper, a.MsgServiceRouter()).VerifHandlerIDs()
+				} else {
+					ids = adgov.NewHookAdapter(&a.AccountKeeper, a.EvmKeeper, a.MsgServiceRouter()).VerifHandlerIDs()
+				}
+			})
+			for _, id := range ids {
+				c.RealIDs = append(c.RealIDs, hlib.Hex(id[:]))
+			}
+			sort.Strings(c.RealIDs)
+			o.Emit(c)
+		}
+	}
+}
